@@ -109,7 +109,11 @@ func GenSProgram(t *rapid.T, cfg SGenCfg) SProgram {
 			n := rapid.IntRange(0, nodes-1).Draw(t, "node")
 			p.Ops = append(p.Ops, SOp{K: "reconnect", Node: n}, SOp{K: "add", Node: n})
 			if rapid.IntRange(0, 3).Draw(t, "promote") > 0 {
-				p.Ops = append(p.Ops, SOp{K: "promote", Node: n})
+				o := SOp{K: "promote", Node: n}
+				if cfg.RestFail && rapid.IntRange(0, 4).Draw(t, "cpfail") == 0 {
+					o.Fail = []int{rapid.IntRange(0, nodes-1).Draw(t, "cpfailnode")}
+				}
+				p.Ops = append(p.Ops, o)
 			}
 		case "promote":
 			p.Ops = append(p.Ops, SOp{K: "promote", Node: rapid.IntRange(0, nodes-1).Draw(t, "node")})
@@ -131,6 +135,12 @@ func GenSProgram(t *rapid.T, cfg SGenCfg) SProgram {
 				}
 			}
 			p.Ops = append(p.Ops, o)
+		case "race":
+			p.Ops = append(p.Ops, SOp{K: "race", Node: rapid.IntRange(1, 3).Draw(t, "writers"), N: int64(rapid.IntRange(3, 40).Draw(t, "per")),
+				Reps: rapid.IntRange(1, 3).Draw(t, "snaps"), Off: int64(rapid.IntRange(0, 3000).Draw(t, "delay")), Len: int64(rapid.IntRange(0, 2000).Draw(t, "spacing"))})
+		case "promotecp":
+			nf := rapid.IntRange(1, nodes).Draw(t, "ncpfail")
+			p.Ops = append(p.Ops, SOp{K: "promote", Node: rapid.IntRange(0, nodes-1).Draw(t, "node"), Fail: rapid.Permutation(seqInts(nodes)).Draw(t, "cpfailperm")[:nf]})
 		case "setmode":
 			o := SOp{K: "setmode", Node: rapid.IntRange(0, nodes-1).Draw(t, "node"),
 				Name: rapid.SampledFrom([]string{"ERR", "ERR", "RW", "WO", "bogus"}).Draw(t, "mode")}
